@@ -165,6 +165,10 @@ class Printer(PrinterBase):
             s = f"std::numeric_limits<{typ}>::infinity()"
         elif s == "-inf":
             s = f"(-std::numeric_limits<{typ}>::infinity())"
+        elif typ in {"float", "std::complex<float>", "std::complex<double>"}:
+            # an unsuffixed literal is a double: it would promote float
+            # arithmetic to double and does not mix with std::complex
+            s = f"{typ}({s})"
         return s
 
     def make_argument(self, arg):
